@@ -377,6 +377,11 @@ def _is_empty_test(e):
 
 def _empty_guarded(n, anc):
     """is node n only reached when the current cell is not Empty, by an explicit boolean test?"""
+    from .kit import reach_conds
+    for c in reach_conds(n, anc):
+        c = unwrap(c)
+        if isinstance(c, dict) and c.get("k") == "Unary" and c.get("op") == "!" and _is_empty_test(c["e"]):
+            return True
     for x in anc:
         if x.get("k") == "If":
             c = unwrap(x["cond"])
@@ -442,8 +447,9 @@ def r_tight(ctx, rep):
                 key = "%s|R-TIGHT|push#%d|row-filter" % (fn.name, n_push)
                 ok = False
                 why = "no enclosing `if` compares the cell's row with the header row"
-                for x in anc:
-                    if x.get("k") == "If" and any(y is n for y in walk(x["then"])):
+                from .kit import reach_conds
+                for x in [{"cond": ce} for ce in reach_conds(n, anc)]:
+                    if True:
                         for c in walk_k(x["cond"], "Binary"):
                             lhs_row = _is_pos_row(c["l"])
                             rhs_row = _is_pos_row(c["r"])
@@ -499,8 +505,9 @@ def r_tight(ctx, rep):
 
         def is_row(e):
             return _is_pos_row(e) or (path_local(e) and path_local(e)[1] in row_locals)
-        for x in anc:
-            if x.get("k") == "If" and any(y is n for y in walk(x["then"])):
+        from .kit import reach_conds
+        for x in [{"cond": ce} for ce in reach_conds(n, anc)]:
+            if True:
                 for c in (b for ce in cond_exprs(fn.body, x["cond"]) for b in walk_k(ce, "Binary")):
                     if c["op"] == "!=" and ((is_row(c["l"]) and path_local(c["r"]) and path_local(c["r"])[1] in lids) or (is_row(c["r"]) and path_local(c["l"]) and path_local(c["l"])[1] in lids)):
                         ok_cond = True
